@@ -21,6 +21,7 @@ import (
 	smtpendp "github.com/foxcpp/maddy/internal/endpoint/smtp"
 	_ "github.com/foxcpp/maddy/internal/table"
 	"github.com/foxcpp/maddy/verifharness/authkit"
+	"github.com/foxcpp/maddy/verifharness/scripted"
 	"github.com/foxcpp/maddy/verifharness/vtrace"
 )
 
@@ -40,12 +41,13 @@ type Out struct {
 
 var checks = map[string]module.Check{}
 
-func checkFor(t *testing.T, tbl, norm string) module.Check {
-	k := tbl + "/" + norm
+func checkFor(t *testing.T, tbl, norm string, chk bool) module.Check {
+	k := fmt.Sprintf("%s/%s/%v", tbl, norm, chk)
 	if c, ok := checks[k]; ok {
 		return c
 	}
-	m, err := authkit.InitFromText("check.authorize_sender", "c15chk_"+tbl+"_"+norm, nil, CheckConfig(tbl, norm))
+	m, err := authkit.InitFromText("check.authorize_sender", fmt.Sprintf("c15chk_%s_%s_%v", tbl, norm, chk), nil,
+		CheckConfig(tbl, norm, chk))
 	if err != nil {
 		t.Fatalf("authorize_sender init (%s): %v", k, err)
 	}
@@ -55,7 +57,7 @@ func checkFor(t *testing.T, tbl, norm string) module.Check {
 }
 
 func direct(t *testing.T, r Row) Out {
-	c := checkFor(t, r.Tbl, r.Norm)
+	c := checkFor(t, r.Tbl, r.Norm, r.Chk)
 	ctx := context.Background()
 	meta := &module.MsgMetadata{ID: "verif", Conn: &module.ConnState{AuthUser: User(r.Auth), Proto: "ESMTP"}}
 	st, err := c.CheckStateForMsg(ctx, meta)
@@ -130,10 +132,27 @@ var (
 	authReady bool
 )
 
-const pw = "correct horse"
+// every account has its own password
+var pw = map[string]string{"U": "correct horse", "V": "battery staple"}
 
-func endpointFor(t *testing.T, kind, tbl, norm string) *endpoint {
-	k := kind + "/" + tbl + "/" + norm
+// neighbourBlock is a scripted check (harness/scripted) for the same check block as
+// authorize_sender: it fails at the sender and body stages with the given action.
+func neighbourBlock(nb string) string {
+	switch nb {
+	case "absent":
+		return ""
+	case "none":
+		return "    verif_scripted {\n        id nb\n        ctl c15\n    }\n"
+	case "quarantine", "reject":
+		return "    verif_scripted {\n        id nb\n        ctl c15\n        fail_on sender body\n" +
+			"        sender_action " + nb + "\n        body_action " + nb + "\n    }\n"
+	}
+	panic("unknown neighbour " + nb)
+}
+
+func endpointFor(t *testing.T, kind string, r Row) *endpoint {
+	tbl, norm := r.Tbl, r.Norm
+	k := fmt.Sprintf("%s/%s/%s/%v/%s", kind, tbl, norm, r.Chk, r.Nb)
 	if e, ok := endpoints[k]; ok {
 		return e
 	}
@@ -148,25 +167,28 @@ func endpointFor(t *testing.T, kind, tbl, norm string) *endpoint {
 			t.Fatal(err)
 		}
 		pt := m.(*pass_table.Auth)
-		for _, u := range []string{User(Item{"U", "plain"}), User(Item{"V", "plain"})} {
-			if err := pt.CreateUserHash(u, pw, pass_table.HashBcrypt, pass_table.HashOpts{BcryptCost: 4}); err != nil {
+		for _, u := range []string{"U", "V"} {
+			if err := pt.CreateUserHash(User(Item{u, "plain"}), pw[u], pass_table.HashBcrypt, pass_table.HashOpts{BcryptCost: 4}); err != nil {
 				t.Fatal(err)
 			}
 		}
 		authkit.RegisterReady(pt)
+		ctl := scripted.NewCheckCtl(vtrace.New(nil, 0), nil)
+		ctl.NoGate = true
+		scripted.BindCheckCtl("c15", ctl)
 		authReady = true
 	}
-	sk := &sink{inst: "c15sink_" + strings.ReplaceAll(k, "/", "_")}
+	sk := &sink{inst: fmt.Sprintf("c15sink%d", len(endpoints))}
 	authkit.RegisterReady(sk)
 	text := "hostname mx.example.org\ntls off\nbuffer ram\n"
 	if kind == "submission" {
-		text += "auth &c15auth\n"
+		text += "auth &c15auth\nsasl_login yes\n"
 	}
 	text += "check {\n    authorize_sender {\n"
-	for _, l := range strings.Split(strings.TrimSpace(CheckConfig(tbl, norm)), "\n") {
+	for _, l := range strings.Split(strings.TrimSpace(CheckConfig(tbl, norm, r.Chk)), "\n") {
 		text += "        " + l + "\n"
 	}
-	text += "    }\n}\ndeliver_to &" + sk.inst + "\n"
+	text += "    }\n" + neighbourBlock(r.Nb) + "}\ndeliver_to &" + sk.inst + "\n"
 	nodes, err := authkit.Nodes(text)
 	if err != nil {
 		t.Fatalf("config: %v\n%s", err, text)
@@ -191,7 +213,7 @@ func viaEndpoint(t *testing.T, r Row) Out {
 	if r.Auth.A == "none" {
 		kind = "smtp" // a submission endpoint refuses MAIL outright; the check's own rule is reached on port 25
 	}
-	e := endpointFor(t, kind, r.Tbl, r.Norm)
+	e := endpointFor(t, kind, r)
 	c, err := e.ln.Dial()
 	if err != nil {
 		t.Fatal(err)
@@ -212,7 +234,25 @@ func viaEndpoint(t *testing.T, r Row) Out {
 	}
 	before := e.sink.count()
 	if r.Auth.A != "none" {
-		if rep := must(cl.AuthPlain("", User(r.Auth), pw, true)); rep.Code != 235 {
+		// the client holds the password of r.Auth only; the authorization identity is what it claims
+		var rep authkit.Reply
+		if r.Sasl.Mech == "LOGIN" {
+			rep = must(cl.AuthLogin(User(r.Auth), pw[r.Auth.A], true))
+		} else {
+			az := ""
+			switch r.Sasl.Az {
+			case "same":
+				az = User(r.Auth)
+			case "other":
+				other := "V"
+				if r.Auth.A == "V" {
+					other = "U"
+				}
+				az = User(Item{other, "plain"})
+			}
+			rep = must(cl.AuthPlain(az, User(r.Auth), pw[r.Auth.A], true))
+		}
+		if rep.Code != 235 {
 			return Out{false, "auth", rep.Code}
 		}
 	}
